@@ -199,8 +199,9 @@ def step_area(xs, ys, lower, upper):
 
 
 def numeric(ctx, chk, tier):
-    reps = [(k, v) for k, v in SCORE_REPS.items() if tier == "thorough" or k in ("1v1", "2v2", "3v2", "2v3sep", "ties", "alltied")]
-    easy = EASY_REPS if tier == "thorough" else EASY_REPS[:3]
+    from .thr import reps_for, easy_for
+    reps = [(k, v) for k, v in reps_for(tier) if tier == "thorough" or k in ("1v1", "2v2", "3v2", "2v3sep", "ties", "alltied")]
+    easy = easy_for(tier)
     windows = ((Fraction(0), Fraction(1)), (Fraction(0), Fraction(1, 3)), (Fraction(1, 3), Fraction(1)), (Fraction(1, 4), Fraction(3, 4)), (Fraction(1, 2), Fraction(1, 2)))
     for sc, ec in GAMMAS:
         outs, _ = explore_auc(ctx, chk, "fpr", "tpr", stub=False, sc=sc, ec=ec)
